@@ -86,8 +86,8 @@ class ExprMixin:
             if self.src.method(v.cls, '__len__')[0] or self.src.method(v.cls, '__bool__')[0]:
                 raise Refuse(f"truth value of {v.cls} with __len__/__bool__")
             return z3.BoolVal(True)
-        if isinstance(v, VFunc):
-            return z3.BoolVal(True)
+        if isinstance(v, (VFunc, VExc)):
+            return z3.BoolVal(True)          # functions and exception instances are truthy
         raise Refuse(f"truth of {v!r}")
 
     def feasible(self, st, extra=None):
